@@ -385,6 +385,7 @@ inductive Op where
   | setRule (r : Id) (rule : Option G)   -- reaction.gene_reaction_rule = "…" (the text parsed by `GPRM.fromString`), outside a context
   | removeRxns (rs : List Id) (orphans : Bool)   -- remove_reactions([…]): identifiers that are not in the model are skipped with a warning
   | imul (r : Id) (k : Rat)
+  | addRxnR (r : Id) (lb ub : EB) (ps : List (Id × Rat)) (rule : Option G)   -- add_reactions([R]) for a new reaction that carries a gene rule, outside a context
   | addBoundary (m : Id) (t : BType) (external : Bool) (dlb dub : EB)   -- model.add_boundary(metabolite, type); `external`: the metabolite sits in the external compartment; `dlb`, `dub`: the configured default bounds
   | observe                          -- calls that only look: `slim_optimize()`, `reaction.copy()`, `a + b` / `a - b` on reactions of the model
   | enter
@@ -598,6 +599,15 @@ def apply (y : Sys) : Op → Sys × Option Err
     if !y.s.hasR r then (y, some .key)
     else if k = 0 then (y, some .type)                 -- outside the modelled fragment (never sent by the harness)
     else imul y r k
+  | .addRxnR r lb ub ps rule =>
+    -- as `addRxn`; the genes of the rule the model lacks join `model.genes`, the others are the model's own objects from now on
+    -- (`reaction._dissociate_gene(gene)`, `reaction._associate_gene(model_gene)`): the effect of `setRuleRaw` on the freshly added reaction
+    if EB.lt ub lb then (y, some .value)
+    else if y.s.hasR r then (y, none)
+    else if inCtx y then (y, some .type)                 -- inside a context: outside the modelled fragment (never sent by the harness)
+    else if decide (r ∈ y.s.univR) && freshNames y.s r && ps.all (fun p => y.s.hasM p.1 && decide (p.2 ≠ 0)) then
+      ({ y with s := setRuleRaw (addRxnRaw y.s r lb ub ps) r rule }, none)
+    else (y, some .type)
   | .addBoundary m t external dlb dub =>
     if !y.s.hasM m then (y, some .key)                          -- the metabolite is looked up in the model first
     else if t = .exchange && !external then (y, some .value)     -- "The metabolite is not an external metabolite"
